@@ -68,13 +68,21 @@ def check_wire_shape(prog: Program, f: FuncInfo, spec: Dict[str, Tuple[str, str]
     n_ob = 0
     # the dict that is returned
     ret_vars = set()
+    def add_ret(e: ast.expr) -> None:
+        if isinstance(e, ast.IfExp):
+            add_ret(e.body)
+            add_ret(e.orelse)
+            ret_vars.add('<return>')
+        elif dotted(e):
+            ret_vars.add(dotted(e))
+        elif isinstance(e, ast.Dict):
+            ret_vars.add('<return>')
+            for k_, v_ in zip(e.keys, e.values):
+                if k_ is None and dotted(v_):
+                    ret_vars.add(dotted(v_))      # {**local, ...}: the members of the local are part of what is returned
     for n in cfg.stmt_nodes():
         if isinstance(n.ast, ast.Return) and n.ast.value is not None:
-            d = dotted(n.ast.value)
-            if d:
-                ret_vars.add(d)
-            elif isinstance(n.ast.value, ast.Dict):
-                ret_vars.add('<return>')
+            add_ret(n.ast.value)
     writes = [w for w in writes if w.var in ret_vars]
     keys = {w.key for w in writes}
     n_ob += 1
